@@ -63,8 +63,30 @@ def make_spec(stream, rng, edge_index=None):
             tot = sum(o["rate"] * o["duration"] for o in spec["observations"])
             spec["hot"]["capacity"] = int(tot / 0.6) + 5
             spec["cold"]["capacity"] = spec["hot"]["capacity"] + 5
+        splitmin = stream == "batch" and rng.random() < 0.2
+        if splitmin:
+            # a per-observation split whose lower limits are below the configured minimum, while a long ingest holds
+            # machines: a workflow that finds [lower limit, minimum) machines free must wait, not reserve too few
+            nm = rng.randint(4, 5)
+            mn = rng.randint(2, 3)
+            spec["machines"] = [{"id": "m%d" % i, "flops": 10, "bw": 2} for i in range(nm)]
+            wf = lambda: simgen.gen_workflow(rng, 4, [10])
+            base = dict(spec["observations"][0])
+            held = nm - rng.randint(1, mn - 1)           # machines on ingest while the first workflow asks
+            spec["max_ingest"] = nm
+            spec["observations"] = [
+                dict(base, name="a", start=0, duration=rng.randint(1, 2), demand=1, ingest_demand=1, rate=1, workflow=wf()),
+                dict(base, name="b", start=rng.randint(1, 2), duration=rng.randint(8, 12), demand=1, ingest_demand=held, rate=1,
+                     workflow=wf())]
+            spec["total_arrays"] = max(spec["total_arrays"], 2)
+            spec["scheduling"] = {"kind": "batch", "partitions": 2, "min": mn,
+                                  "split": {"a": [1, nm], "b": [1, nm]}}
+            tot = sum(o["rate"] * o["duration"] for o in spec["observations"])
+            spec["hot"]["capacity"], spec["hot"]["rate"] = int(tot / 0.6) + 5, max(spec["hot"]["rate"], 2)
+            spec["cold"]["capacity"] = spec["hot"]["capacity"] + 5
+            spec["delay"] = None
         # squeeze: few machines, observations close together, wide workflows
-        if stream != "batch" or rng.random() < 0.5:
+        if (stream != "batch" or rng.random() < 0.5) and not splitmin:
             t = rng.choice([0, 1])
             for o in spec["observations"]:
                 o["start"] = t
@@ -153,6 +175,9 @@ def make_spec(stream, rng, edge_index=None):
         for o in spec["observations"]:
             o["start"] = o["start"] * m + (m // 2 if rng.random() < 0.4 else 0)
             o["duration"] = o["duration"] * m + (m // 2 if rng.random() < 0.7 else 0)
+            if rng.random() < 0.4:
+                # a data rate per second whose product with the unit is not a whole number (the parser rounds it)
+                o["rate"] = max(1, o["rate"]) + rng.choice([0.7, 0.1, 0.35, 0.45]) / (1 if m % 2 else 2)
             for e in o["workflow"]["edges"]:
                 e[2] = rng.choice([0, 8 * m, 16 * m])
             for nd in o["workflow"]["nodes"]:
@@ -165,10 +190,12 @@ def make_spec(stream, rng, edge_index=None):
         spec["timestep_explicit"] = True
         spec["delay"] = None
         opt["replay"] = False
-        opt["only_props"] = ["C04", "C05", "C06", "C08", "C19"]
+        opt["only_props"] = ["C04", "C05", "C06", "C07", "C08", "C19"]
         # of C08 only what is decided at the admission instant (hold times are whole steps: with a fractional
         # duration the unchanged code holds the machines for the duration rounded up)
-        opt["only_kinds"] = {"C08": ["started-before-planned-start", "admitted-without-arrays", "admitted-without-machines",
+        opt["only_kinds"] = {"C07": ["data-owned-by-no-resident-observation", "hot-free-space-out-of-range",
+                                     "cold-free-space-out-of-range", "ingest-above-max-rate"],
+                             "C08": ["started-before-planned-start", "admitted-without-arrays", "admitted-without-machines",
                                      "admitted-over-ingest-limit", "admitted-without-hot-space", "admitted-without-cold-space",
                                      "admitted-on-promised-machines", "observation-admitted-twice", "admitted-not-waiting"]}
     elif stream == "big":
@@ -271,7 +298,7 @@ def make_spec(stream, rng, edge_index=None):
         spec["delay"] = None
         obs = spec["observations"]
         kinds = ["threshold", "handover", "threshold2", "hotfit", "coldfit", "machines", "ingestlimit", "arrays", "rate",
-                 "coldshort", "ingestlimit3", "ratefrac", "emptywf", "stalecheck", "hugecap", "doubleadmit", "coldinflight", "toowide", "zerodemand"]
+                 "coldshort", "ingestlimit3", "ratefrac", "emptywf", "stalecheck", "hugecap", "doubleadmit", "coldinflight", "toowide", "zerodemand", "fraccap"]
         which = kinds[edge_index % len(kinds)] if edge_index is not None else rng.choice(kinds)
         obs.sort(key=lambda o: o["start"])
         if len(obs) < 2 and which in ("threshold2", "hotfit", "ingestlimit", "arrays", "handover"):
@@ -504,6 +531,13 @@ def make_spec(stream, rng, edge_index=None):
             for o in obs:
                 if o["name"] == opt["zero_demand"]:
                     o["demand"] = 0
+        if which == "fraccap":
+            # tier capacities that are not whole numbers (binary-exact): the table reports the free space as it is,
+            # not rounded (the model keeps whole capacities: judged on the real code, for C12 only)
+            spec["hot"]["capacity"] = spec["hot"]["capacity"] + rng.choice([0.5, 0.25, 0.75])
+            spec["cold"]["capacity"] = spec["cold"]["capacity"] + rng.choice([0.5, 0.25])
+            opt["replay"] = False
+            opt["only_props"] = ["C12"]
         opt["edge"] = which
     elif stream == "shutdown":
         # the public Scheduler.shutdown() called at a pause point with observations still queued: the scheduler
